@@ -544,6 +544,11 @@ class IOBasePayload(Payload):
 
         Returns None if the size cannot be determined (e.g., for unseekable streams).
         """
+        # fstat() is the size of what read() returns only for a real file: wrappers
+        # such as gzip.open() have a fileno() too, but read() transforms the content.
+        raw = getattr(self._value, "buffer", self._value)
+        if not isinstance(getattr(raw, "raw", raw), io.FileIO):
+            return None
         try:
             # Store the start position on first access.
             # This is critical when the same payload instance is reused (e.g., 307/308
